@@ -2712,7 +2712,7 @@ int cg_node_fambc_write( const char* fambc_name,
     cgns_fambc *fambc = NULL;
 
     /* verify input */
-/*  if (cgi_check_strlen(fambc_name)) return CG_ERROR; */
+    if (cgi_check_strlen(fambc_name)) return CG_ERROR;
     if (INVALID_ENUM(bocotype,NofValidBCTypes)) {
         cgi_error("Invalid BCType:  %d",bocotype);
         return CG_ERROR;
@@ -12248,6 +12248,7 @@ int cg_biter_write(int fn, int B,  const char * bitername, int nsteps)
     cgsize_t length=1;
 
      /* verify input */
+    if (cgi_check_strlen(bitername)) return CG_ERROR;
     if (nsteps<=0) {
         cgi_error("Invalid input:  The number of steps must be a positive integer!");
         return CG_ERROR;
